@@ -27,6 +27,13 @@ def run(tier):
         chk.clause('C04.D2', 'first failing column kept in ?gstrf')
         chk.clause('C04.guard', 'R3 oracle group `guard` of ?gssvx (D3)')
         chk.clause('C01.D1', 'R3 dispatch oracle of ?gssv (no solve / B untouched on failure)')
+        # the numerical update kernels decide which pivot candidates are exactly zero: necessary conditions on their index arithmetic
+        from ..rules import kernels as _k, r12_supernodal as _r12
+        _k.run_factor(chk, 'C04.kern', prog, cfgname)
+        chk.clause('C04.kern.index', 'abstract interpretation of the supernodal update kernels in a polynomial index domain: every access to the supernode block is the entry the algebra needs')
+        for _p in 'ds':
+            _r12.run(chk, 'C04.kern.index', prog, _p, cfgname)
+            _r12.run_snode(chk, 'C04.kern.index', prog, _p, cfgname)
         n1 = n2 = n3 = 0
         for p in _drv.PRECS:
             n1 += pivot.run(chk, 'C04.D1', prog, p, cfgname)
